@@ -151,6 +151,27 @@ func EncodeVariant(encoding string, b []byte, level int, pick int) (out []byte, 
 		desc = fmt.Sprintf("br:lgwin%d", lgwin)
 		back, err = UnbrotliBytes(out)
 	case "zst":
+		if pick%9 >= 6 {
+			// RFC 8878 streams: skippable frames (as pzstd writes them) and several data frames in a row
+			skip := func(n int) []byte {
+				f := []byte{byte(0x50 + pick%16), 0x2a, 0x4d, 0x18, byte(n), byte(n >> 8), 0, 0}
+				return append(f, bytes.Repeat([]byte{0xa5}, n)...)
+			}
+			half := len(b) / 2
+			switch pick % 9 {
+			case 6:
+				out = append(skip(12), ZstdBytes(b, level)...)
+				desc = "zst:skippable_frame_first"
+			case 7:
+				out = append(append(ZstdBytes(b[:half], level), skip(300)...), ZstdBytes(b[half:], level)...)
+				desc = "zst:two_frames_with_a_skippable_frame_between"
+			default:
+				out = append(ZstdBytes(b, level), skip(0)...)
+				desc = "zst:skippable_frame_last"
+			}
+			back, err = UnzstdBytes(out)
+			break
+		}
 		win := []int{1 << 10, 1 << 16, 1 << 20, 1 << 23, 1 << 24, 1 << 25}[pick%6]
 		l := zstd.EncoderLevel(1 + level%4)
 		var buf bytes.Buffer
